@@ -5,4 +5,17 @@ body = ""
 for e in LEAVES:
     body += harness(e["tier"], "h05enc", e["name"], e["unwind"],
                     "crate::c05_encode!(%s, %s, %s, %d, %s);" % (e["ty"], e["any"], e["ref"], nb(e), e["mask"]))
+# decode direction on reference bytes: one quick harness per box type (its last quick shape), every
+# shape in the thorough tier; esds with a symbolic AudioSpecificConfig does not finish (hand-written
+# concrete-configuration harnesses in c05.rs instead)
+last_quick = {}
+for e in LEAVES:
+    if e["tier"] == "q":
+        last_quick[e["ty"]] = e["name"]
+for e in LEAVES:
+    if e["name"] in ("esds", "mp4a_esds"):
+        continue
+    tier = "q" if last_quick.get(e["ty"]) == e["name"] else "t"
+    body += harness(tier, "h05dec", e["name"], e["unwind"],
+                    "crate::c05_decode_ref!(%s, %s, %s, %d);" % (e["ty"], e["any"], e["ref"], nb(e)))
 write_gen("c05.rs", "c05.py", body)
